@@ -7,9 +7,19 @@ From DTN Require Import Gen.TlsPolicy Model.TlsSpec.
 
 (* ------------------------------------------------------------------ use of TLS *)
 
-Lemma tls_iff_both : forall this_can peer_can,
-  tls_attempt this_can peer_can = true <-> (this_can = true /\ peer_can = true).
-Proof. intros [] []; cbv; intuition congruence. Qed.
+Lemma bit0_test : forall f : N, negb (N.eqb (N.land f 1) 0) = N.testbit f 0.
+Proof. intros [|[p|p|]]; reflexivity. Qed.
+
+(* for ALL values of the two flags octets (reserved bits included) *)
+Lemma tls_attempt_bits : forall this_flags peer_flags : N,
+  tls_attempt this_flags peer_flags = offers_tls this_flags && offers_tls peer_flags.
+Proof.
+  intros a b. unfold tls_attempt, can_tls_bit, offers_tls. cbv zeta. rewrite !bit0_test. reflexivity.
+Qed.
+
+Lemma tls_iff_both : forall this_flags peer_flags : N,
+  tls_attempt this_flags peer_flags = true <-> (N.testbit this_flags 0 = true /\ N.testbit peer_flags 0 = true).
+Proof. intros a b. rewrite tls_attempt_bits. unfold offers_tls. apply andb_true_iff. Qed.
 
 Lemma require_tls_never_clear : forall attempt ok s,
   contact_outcome (Some true) attempt ok = Proceed s -> s = true.
@@ -23,10 +33,14 @@ Lemma secured_only_by_handshake : forall req attempt ok,
   contact_outcome req attempt ok = Proceed true -> attempt = true /\ ok = true.
 Proof. intros [[]|] [] []; cbv; intuition congruence. Qed.
 
-Lemma no_sessinit_unless_policy : forall req this_can peer_can ok s,
-  contact_outcome req (tls_attempt this_can peer_can) ok = Proceed s ->
-  tls_use_ok req this_can peer_can s.
-Proof. intros [[]|] [] [] [] s; cbv; intros H; inversion H; auto. Qed.
+Lemma no_sessinit_unless_policy : forall req (this_flags peer_flags : N) ok s,
+  contact_outcome req (tls_attempt this_flags peer_flags) ok = Proceed s ->
+  tls_use_ok req (offers_tls this_flags) (offers_tls peer_flags) s.
+Proof.
+  intros req a b ok s. rewrite tls_attempt_bits.
+  destruct req as [[]|]; destruct (offers_tls a); destruct (offers_tls b); destruct ok;
+    cbv; intros H; inversion H; auto.
+Qed.
 
 (* the contact step never stalls: it closes exactly in the cases below *)
 Lemma contact_closed_iff : forall req attempt ok,
